@@ -14,7 +14,7 @@ import (
 func VH_c18_statement_roundtrip() {
 	c := oc.Statement{Name: "s1"}
 	c.Actions.RouteDisposition = []oc.RouteDisposition{oc.ROUTE_DISPOSITION_NONE, oc.ROUTE_DISPOSITION_ACCEPT_ROUTE, oc.ROUTE_DISPOSITION_REJECT_ROUTE}[vChoice("disposition", 3)]
-	meds := []string{"", "0", "100", "+10", "-10", "-1", "+4294967295", "4294967295"}
+	meds := []string{"", "0", "100", "+10", "-10", "-1", "+4294967295", "4294967295", "+0"}
 	c.Actions.BgpActions.SetMed = oc.BgpSetMedType(meds[vChoice("med", len(meds))])
 	c.Actions.BgpActions.SetLocalPref = vU32("local_pref")
 	if vBool("prepend") {
@@ -45,6 +45,25 @@ func VH_c18_statement_roundtrip() {
 	got := back.ToConfig()
 	vAssert(got.Actions.RouteDisposition == want.Actions.RouteDisposition, "route disposition changes in the API round trip")
 	vAssert(got.Actions.BgpActions.SetMed == want.Actions.BgpActions.SetMed, "the MED action changes in the API round trip")
+	// ... and it still does the same thing to a route (the configuration text does not distinguish
+	// a zero modifier from setting MED to 0)
+	medOf := func(x *table.Statement) (uint32, bool) {
+		nh, _ := bgp.NewPathAttributeNextHop(vAddr4(10, 0, 0, 1))
+		p := table.NewPath(bgp.RF_IPv4_UC, nil, bgp.PathNLRI{NLRI: vPrefix4(10, 9, 0, 0, 16)}, false,
+			[]bgp.PathAttributeInterface{bgp.NewPathAttributeOrigin(0), nh, bgp.NewPathAttributeMultiExitDisc(50)}, vTimeUnix(1), false)
+		for _, a := range x.ModActions {
+			if ma, ok := a.(*table.MedAction); ok {
+				if _, err := ma.Apply(p, nil); err != nil {
+					return 0, false
+				}
+			}
+		}
+		m, err := p.GetMed()
+		return m, err == nil
+	}
+	m1, ok1 := medOf(st)
+	m2, ok2 := medOf(back)
+	vAssert(ok1 == ok2 && m1 == m2, "the MED action has a different effect on a route after the API round trip")
 	vAssert(got.Actions.BgpActions.SetLocalPref == want.Actions.BgpActions.SetLocalPref, "the LOCAL_PREF action changes in the API round trip")
 	vAssert(got.Actions.BgpActions.SetAsPathPrepend == want.Actions.BgpActions.SetAsPathPrepend, "the AS_PATH prepend action changes in the API round trip")
 	vAssert(got.Actions.BgpActions.SetRouteOrigin == want.Actions.BgpActions.SetRouteOrigin, "the ORIGIN action changes in the API round trip")
